@@ -173,6 +173,43 @@ def cases(tier, seed):
     return out
 
 
+def long_cases(tier, seed):
+    """binary64 runs with MANY restart cycles (short restart lengths on convection-diffusion systems): the k-th iterate of the
+    restarted methods -- LGMRES(M, K) keeps the K most recent corrections in a ring buffer, which only starts to wrap after K + 2
+    cycles -- against the extracted model evaluated at the binary64 instance (one rounding per operation, bit patterns)"""
+    r = random.Random(seed * 1000 + 55)
+    out = []
+    for solver, reps in (("lgmres", 10), ("gmres", 3), ("fgmres", 3), ("bicgstabl", 2), ("idrs", 2)):
+        for si in range(reps if tier == "quick" else 4 * reps):
+            n = r.choice([16, 25, 36])
+            S = kc.dyadic_sys(r, n, solver, pk=r.choice(["id", "diag"]))
+            M = r.choice([1, 2, 4]); K = r.choice([2, 3]) if solver == "lgmres" else r.choice([1, 2])
+            prm = kc.dyadic_prm(r, maxiter=(K + 3) * (M + K) + r.choice([0, 1, 5, 17]), M=M, K=K, tol=F(1, 2 ** 40))
+            out.append((kc.seq_line("L%d" % len(out), "seq", solver, kc.side_for(r, solver), n, [S], **prm), dict(solver=solver, M=M, K=K)))
+    return out
+
+
+def long_stage(ctx):
+    cs = long_cases(ctx["tier"], ctx["seed"])
+    il, ml = kc.float_pair(ctx, [c[0] for c in cs])
+    fi = ctx["run_driver"](ctx["cpp"]["krylov"], il, timeout=TMO)
+    fm = ctx["run_driver"](ctx["model"], ml, timeout=TMO)
+    account(ctx, il, fi)
+    fails = []; wrapped = 0
+    for (l, meta), li in zip(cs, il):
+        cid = l.split(" ", 1)[0]; a, m = fi.get(cid), fm.get(cid)
+        ctx["stats"]["oracle_checks"] += 1
+        pr = kc.parse_result(a) if a else None
+        if pr and meta["solver"] == "lgmres" and pr[0] > (meta["K"] + 2) * (meta["M"] + meta["K"]): wrapped += 1
+        if a != m:
+            ctx["stats"]["mismatches"] += 1
+            fails.append(dict(kind="counterexample", case=li, impl=(a or "")[:3000], model=(m or "")[:3000], op="long:" + meta["solver"], size=len(l),
+                              theorem="C05 reference iterates over many restart cycles: %s (double build) vs the extracted model at the binary64 Scalar instance "
+                                      "(M = %d, K = %d)" % (meta["solver"], meta["M"], meta["K"])))
+    ctx["log"].append(("C05 long runs: cases / lgmres runs whose ring buffer wrapped (more than (K+2)(M+K) iterations)", "%d / %d" % (len(cs), wrapped)))
+    return fails
+
+
 def run(ctx, cases_override=None):
     if cases_override:
         cs = [(l, "ref" if l.split(" ", 3)[2] in REF_SOLVERS else "mono", dict(solver=l.split(" ", 3)[2], group="x", k=0)) for l in cases_override]
@@ -305,6 +342,7 @@ def run(ctx, cases_override=None):
                               kc.fmt_q(PG_TOL), k - c, len(its[c]), " ".join(its[c]), len(its[k]), " ".join(its[k])))
                 oinfo[oid] = (glines, "C05-A2 minimal residual: the %s iterate with maxiter = %d must satisfy the Petrov-Galerkin condition "
                                       "relative to the restart point (maxiter = %d), M = %d" % (d0["solver"], k, c, M))
+    fails += long_stage(ctx) if not cases_override else []
     ores = ctx["run_driver"](mm, olines, timeout=TMO)
     for ol in olines:
         oid = ol.split(" ", 1)[0]
